@@ -66,8 +66,14 @@ def run_iptw(chk, drv, df, covs, ytype, wcol, cf, dsid, rec):
             chk.case(case, (dsid, 'IPTW', stab, tgt) if rec['_nontrivial'] else None)
             chk.count('IPTW/%s/%s/%s%s%s' % (ytype, tgt, 'stab' if stab else 'unstab', '/w' if wcol else '',
                                              '/miss' if miss else ''))
+            # a truncation bound that no fitted probability (denominator or numerator) reaches changes nothing; the form it
+            # is given in (none / symmetric float / asymmetric pair) rotates with the data set and the cell
+            m = round(float(min(exact_p.min(), 1 - exact_p.max())) / 2, 4)
+            bnd = [False, m or False, [m / 2 or 0.0001, 1 - m]][(int(exact_p.sum() * 1e6) + 3 * int(stab) +
+                                                              ('population', 'exposed', 'unexposed').index(tgt)) % 3]
+            case['bound'] = bnd
             ipt = IPTW(df[cols], treatment='A', outcome='Y', weights=wcol, standardize=tgt)
-            ipt.treatment_model(gen.sat_cov(covs), stabilized=stab, print_results=False)
+            ipt.treatment_model(gen.sat_cov(covs), stabilized=stab, bound=bnd, print_results=False)
             if miss:
                 ipt.missing_model(gen.sat_out(covs), stabilized=stab, print_results=False)
             ipt.marginal_structural_model('A')
@@ -248,11 +254,11 @@ def run_tmle(chk, drv, df, covs, ytype, cf_raw, dsid, rec, cb):
               dict(case, want=want))
 
 
-def one_dataset(chk, drv, rng, ytype, wcol, missing, which):
-    df, covs = gen.cat_dataset(rng, outcome=ytype, weights=bool(wcol), missing=missing,
+def one_dataset(chk, drv, rng, ytype, wcol, missing, which, frac=False):
+    df, covs = gen.cat_dataset(rng, outcome=ytype, weights=('frac' if frac else bool(wcol)), missing=missing,
                                index=str(rng.choice(['default', 'shifted', 'shuffled'])))
     cf = gen.closed_form(df, covs, wcol)
-    rec = gen.describe(df, covs, outcome=ytype, weights=wcol, missing=missing)
+    rec = gen.describe(df, covs, outcome=ytype, weights=('non-integer' if frac else wcol), missing=missing)
     rec['frame'] = gen.frame_record(df)
     rec['_nontrivial'] = bool(nontrivial(df, covs, cf))
     dsid = hash(df.to_csv())
@@ -366,8 +372,9 @@ def run(chk, drv, rng, tier):
     aipw_calculator_direct(chk, drv, rng, 150 if tier == 'quick' else 2000)
     for _ in range(reps):
         for ytype in ('binary', 'normal', 'poisson'):
-            for wcol in (None, 'w'):
-                one_dataset(chk, drv, rng, ytype, wcol, None, ('iptw', 'gf', 'aiptw', 'tmle'))
+            # no weights / integer frequency weights / non-integer (sampling) weights varying inside the cells
+            for wcol, frac in ((None, False), ('w', False), ('w', True)):
+                one_dataset(chk, drv, rng, ytype, wcol, None, ('iptw', 'gf', 'aiptw', 'tmle'), frac=frac)
     # missing outcomes (C10 shares these cells): IPTW / TMLE with a saturated missingness model, g-formula prediction
     for _ in range(reps):
         for ytype in ('binary', 'normal'):
